@@ -42,10 +42,10 @@ type Dev struct {
 	KeepData bool    // keep a copy of written data in the log
 	Allowed  []Range // if non-nil, writes outside the union are recorded in OutOfRange
 	// OutOfRange lists writes (or parts) that fell outside Allowed or the device.
-	OutOfRange []Range
-	NoSync     bool // when true the device does not expose Sync()
-	ReadHook   func(off int64, n int)
-	Closed     bool
+	OutOfRange     []Range
+	NoSync         bool // when true the device does not expose Sync()
+	ReadHook       func(off int64, n int)
+	Closed         bool
 	FailWriteAfter int // if >0: the n-th WriteAt from now fails (fault injection)
 	writes         int
 }
